@@ -53,7 +53,7 @@ def main_explore(pid, tier, seed, m, mutation_only=False, extra_oracle=None):
     loop = asyncio.new_event_loop()
     stats = {"evaluations": 0, "schedules": 0, "nontrivial": set(), "problems": [], "disagreements": [], "samples": [], "max_gates": 0,
              "exhaustive_requests": 0, "tree_direct_mismatch": 0}
-    nschemas, ndocs, nrandom = (10, 14, 6) if tier == "quick" else (60, 40, 25)
+    nschemas, ndocs, nrandom = (fw.scale(10), 14, 6) if tier == "quick" else (fw.scale(60), 40, 25)
     t0 = time.time()
     for si in range(nschemas):
         sg = SchemaGen(rng, with_mutation=True if mutation_only else None)
